@@ -400,9 +400,6 @@ func runC11(c *core.Ctx) {
 							hasGroup = true
 						}
 					}
-					if order == 2 && hasGroup {
-						continue
-					}
 					raw := fixscan.Build(fields)
 					for cfg := 0; cfg < 3; cfg++ {
 						if hasGroup && cfg == 0 {
